@@ -2,12 +2,12 @@ package main
 
 import (
 	"context"
-	"os"
-	"path/filepath"
 	"encoding/json"
 	"fmt"
 	"io"
 	"net/http/httptest"
+	"os"
+	"path/filepath"
 	"strconv"
 	"strings"
 
@@ -60,6 +60,7 @@ func refFile(text string) string {
 	}
 	return fmt.Sprintf(`{"scheme":"objectstorage","url":"file://%s"}`, p)
 }
+
 type OReq struct {
 	Local   MRef     `json:"local"`
 	Initial *VRef    `json:"initial,omitempty"`
